@@ -152,6 +152,32 @@ func verifyFunctionOnce(w *World, specs *Specs, ct *Contract, inst map[string]st
 	f := &Frame{c: c, fn: src, info: src.Pkg.TypesInfo, top: true, contract: ct, tsubst: map[*types.TypeParam]types.Type{}}
 	c.fnSrc = src
 	c.tsubst = f.tsubst
+	// definitional axioms of the package's uninterpreted spec functions (trusted; listed in evidence)
+	var axNames []string
+	ctText := ct.text()
+	for k, lm := range specs.Lemmas {
+		if !lm.Axiom || lm.PkgPath != ct.PkgPath {
+			continue
+		}
+		// only the axioms of spec functions this contract mentions (keeps unrelated quantifiers out)
+		relevant := false
+		for name, sf := range specs.SpecFuncs {
+			if sf.PkgPath == lm.PkgPath && sf.Body == nil && strings.Contains(lm.Src, sf.Name+"(") && strings.Contains(ctText, sf.Name+"(") {
+				relevant = true
+			}
+			_ = name
+		}
+		if relevant {
+			axNames = append(axNames, k)
+		}
+	}
+	sort.Strings(axNames)
+	for _, k := range axNames {
+		lm := specs.Lemmas[k]
+		env := &SpecEnv{names: map[string]Val{}, pkg: src.Pkg.Types, typeArgs: map[string]types.Type{}}
+		c.axioms = append(c.axioms, f.specBool(&State{gh: map[string]Val{}}, lm.Expr, env))
+		c.note("axiom (definition of a spec function): " + lm.Name + ": " + lm.Src)
+	}
 	sig := src.Obj.Type().(*types.Signature)
 	typeArgs := map[string]types.Type{}
 	tps := sig.TypeParams()
@@ -292,13 +318,14 @@ func (f *Frame) frameObligations(ex *Exit, entry *SpecEnv, sig *types.Signature,
 	if ct.ModifiesAll {
 		return
 	}
-	mod := map[string]bool{}
-	for _, m := range ct.Modifies {
-		mod[specRoot(m)] = true
-	}
+	mp := modPaths(ct)
 	chk := func(v *types.Var) {
-		if v == nil || v.Name() == "" || v.Name() == "_" || mod[v.Name()] {
+		if v == nil || v.Name() == "" || v.Name() == "_" {
 			return
+		}
+		paths, listed := mp[v.Name()]
+		if listed && len(paths) == 0 {
+			return // whole pointee may change
 		}
 		t := f.typ(v.Type())
 		if _, isPtr := t.Underlying().(*types.Pointer); !isPtr || isBigInt(t) {
@@ -313,8 +340,13 @@ func (f *Frame) frameObligations(ex *Exit, entry *SpecEnv, sig *types.Signature,
 			return
 		}
 		so := f.c.sorts.SortOf(t)
-		f.oblige(ex.st, "frame", fmt.Sprintf("%s@exit%d", v.Name(), ei), fmt.Sprintf("(= (%s.val %s) (%s.val %s))", so, cur.T, so, old.T), ex.pos,
-			fmt.Sprintf("*%s unchanged (not listed in modifies)", v.Name()))
+		what := fmt.Sprintf("*%s unchanged (not listed in modifies)", v.Name())
+		if listed {
+			// only the listed field paths may differ
+			cur = f.maskPaths(ex.st, cur, old, paths)
+			what = fmt.Sprintf("*%s unchanged outside the modifies paths", v.Name())
+		}
+		f.oblige(ex.st, "frame", fmt.Sprintf("%s@exit%d", v.Name(), ei), fmt.Sprintf("(= (%s.val %s) (%s.val %s))", so, cur.T, so, old.T), ex.pos, what)
 	}
 	chk(sig.Recv())
 	for i := 0; i < sig.Params().Len(); i++ {
